@@ -132,6 +132,15 @@ def cases(ctx):
     whole = b"PATCH" + (0x10).to_bytes(3, "big") + (3).to_bytes(2, "big") + b"\x01\x02\x03" + (0x20).to_bytes(3, "big") + (0).to_bytes(2, "big") + (4).to_bytes(2, "big") + b"\x09" + b"EOF"
     for cut in (5, 6, 8, 10, 11, 13, 16, 18, 20, 21, len(whole) - 2, len(whole) - 1, 0, 3):
         add("patch-cut", "*=0x008000\nnop\n.include_ips 'cut.ips', 0\nrts\n", {"cut.ips": list(whole[:cut])})
+    # negative operands without a size suffix (the width is worked out from the value), alone and from label differences
+    for stmt in ("lda #-1", "adc -2", "ldx #zz_a - zz_b", "ldy #zz_step", "cmp #0 - 0x8000", "and -0x123456", "lda -1,x"):
+        add("negative-operand", f"*=0x008000\nzz_step := 0 - 0x10\nzz_a:\nnop\nzz_b:\n{stmt}\nrts\n")
+    # a block that ends right in front of / at / behind the offset whose bytes read 'EOF', through the real IPS writer
+    flat = ".map identifier=1 bank_range=0x00,0x7d addr_range=0,0xffff mask=0x10000\n"
+    for start in (0x454F40, 0x454F41, 0x454F42, 0x454F45, 0x454F46, 0x454F47):
+        for copier in (False, True):
+            out.append({"kind": "ips-eof-offset", "rom": None, "mapping": None, "format": "ips", "copier": copier, "files": {}, "api": True,
+                        "src": f"{flat}*={start - (0x200 if copier else 0):#08x}\n.db 1, 2, 3, 4, 5, 6\n", "count_empty": True, "spec": {"t": "c15"}})
     # a block argument that pastes itself: the inner macro's parameter has the same name as the outer one's, so inside the
     # inner scope `code` is bound to the block { {{code}} } which looks itself up (no macro is applied on the cycle)
     add("recursion", "*=0x008000\n.macro zz_tw(code) {\n{{code}}\n{{code}}\n}\n.macro zz_pt(code) {\nzz_tw({\n{{code}}\n})\n}\nzz_pt({\nnop\n})\n")
